@@ -13,7 +13,8 @@ RULE = ("fault classes enumerated completely: CKDpriv (normal and hardened) IL i
         "(child 0); CKDpub IL in {n, n+1, 2^256-1, random>=n} and IL = n - k_par (child = infinity); master IL in {0, n, n+1, "
         "2^256-1, random>=n}; BIP85 secret in {0, n, n+1, 2^256-1, random>=n} for wif and for the key half of xprv; x parents "
         "(scalar/depth/form classes) x index kinds; control group = nearest valid outputs must return and agree with the "
-        "reference; fault sequences alternate invalid/valid stubs on the same parent; distinct = distinct (monitor, case) digests")
+        "reference; fault sequences alternate invalid/valid stubs on the same parent; distinct = distinct (monitor, case) digests"
+        " EXTENSIONS: + every derivation entry point, parents at depth 255, revisits under a fixed index->output table")
 LEVEL_TEXT = ("The HMAC is replaced from outside by a chosen-output function (the real arithmetic after the PRF runs "
               "unchanged), driving every 2^-127-probability branch: each invalid output must end in an exception, a returned "
               "node/string is the violation; valid neighbours must return the reference result, so over-rejection or an "
